@@ -17,7 +17,8 @@ RULE = ("seeded scene with a FrozenPhonons / AtomsEnsemble potential (1-4 config
         "directions, ensemble_mean T/F, exit planes, scans, detectors). Reference for configuration k: displaced atoms from an "
         "independent model of the seeded displacement (explicit seeds) or from a fresh FrozenPhonons, a plain Potential of that "
         "configuration, the same incident wave, eager. Subjects: eager ensemble call; lazy ensemble call computed by SimScheduler "
-        "(configuration blocks reordered / interleaved / recomputed); two different ensembles computed together in one dask graph. distinct = (scenario hash, schedule hash); non-trivial = >=2 "
+        "(configuration blocks reordered / interleaved / recomputed); two different ensembles computed together in one dask graph; a lazy "
+        "S-matrix (PRISM) over the ensemble potential against per-configuration S-matrix runs. distinct = (scenario hash, schedule hash); non-trivial = >=2 "
         "configurations or a schedule with a real choice")
 ASSUMPTIONS = ["model of the displacement: rng=default_rng(seed_k); r=rng.normal(size=(n,3)); pos[:,axis]+=sigma*r[:,axis] "
                "(the documented algorithm); checked against list(FrozenPhonons) to 1e-6 A (sigmas are stored in single precision)",
@@ -47,6 +48,7 @@ def draw_scenario(ch):
         fp["seed"] = [ch.range(1, 10000, "seed-k") for _ in range(fp["num_configs"])]
     sc["gen_chunks"] = ch.range(1, max(1, fp["num_configs"]), "gen-chunks")
     sc["joint"] = ch.bool(0.4, "joint-compute")
+    sc["prism"] = ch.bool(0.3, "prism")
     return sc
 
 
@@ -240,6 +242,37 @@ def run_one(run):
             except Exception as e:  # noqa: BLE001
                 run.violate("ensemble-run-succeeds", sig(sc, "raise", "lazy-joint", {"exc": type(e).__name__}),
                             f"joint compute of two ensembles raised {type(e).__name__}: {e} at {tb(e)}")
+    # ---- subject 4: an S-matrix over the ensemble potential (PRISM), lazily, against per-configuration S-matrix runs ---------------
+    if sc.get("prism") and sc["builder"]["kind"] == "probe" and sc["scan"]["kind"] != "none" and p["exit_planes"] is None:
+        import abtem
+
+        def prism(pot, lazy):
+            s = abtem.SMatrix(potential=pot, energy=sc["builder"]["energy"], semiangle_cutoff=sc["builder"]["semiangle_cutoff"],
+                              interpolation=1, downsample=False)
+            return s.scan(scan=scene.make_scan(sc["scan"]), detectors=scene.make_detectors(sc["detectors"]), lazy=lazy)
+
+        try:
+            pmembers = [prism(scene.make_potential(p, atoms_override=a), False) for a in confs]
+        except (HarnessError, InjectedCrash):
+            raise
+        except Exception:  # noqa: BLE001
+            pmembers = None
+        if pmembers is not None:
+            sim4 = run.add_sim(Sim(ch, draw_sim_config(ch)))
+            try:
+                with sim4:
+                    fp4 = make_fp(sc)
+                    src = abtem.AtomsEnsemble(list(fp4), ensemble_mean=p["fp"]["ensemble_mean"]) if p["kind"] == "ensemble" else fp4
+                    pot4 = abtem.Potential(src, gpts=tuple(p["gpts"]), slice_thickness=scene._st(p["slice_thickness"]),
+                                           projection=p["projection"], parametrization=p["parametrization"])
+                    lz4 = sim4.compute(prism(pot4, True))
+                check_against_members(run, sc, "lazy-prism", lz4, pmembers, max(rtol, 1e-6), atol)
+                run.note("reach_prism_ensemble")
+            except (HarnessError, InjectedCrash):
+                raise
+            except Exception as e:  # noqa: BLE001
+                run.violate("ensemble-run-succeeds", sig(sc, "raise", "lazy-prism", {"exc": type(e).__name__}),
+                            f"lazy SMatrix.scan over the ensemble potential raised {type(e).__name__}: {e} at {tb(e)}")
     if n > 1:
         run.nontrivial = True
         run.note("reach_multi_config")
